@@ -1,1 +1,143 @@
-From AV Require Import Lib.Base Web.Pool.
+(* C11 — Requests are isolated: nothing from an earlier request is visible in a later one.
+
+   Model: Web/Pool.v (the thread-local RequestHead pool of actix-http and the HttpRequest pool of
+   actix-web, with HttpRequest::drop and AppInitService::call). Specification: Web/PoolSpec.v.
+   Only statements here; proofs are in Web/PoolProofs.v.
+
+   A "history" is an arbitrary list of events on one worker:
+     ERequest q      a request arrives (Message::new + producer writes + AppInitService::call)
+     EMut k m        router / middleware mutates request k through Rc::get_mut (path captures,
+                     skip, resource ids, scoped app_data, header edits)
+     EExt k t v      something inserts into the request-local extensions of request k
+     EClone k        a handle of request k is cloned;   EDrop k   a handle is dropped
+     EDisable        the service is dropped (pool disabled and emptied)
+   [run .. st_init history = Val s] says the history ran (no routing mutation hit a cloned
+   request, which panics in the implementation) and ended in worker state [s]. *)
+From AV Require Import Lib.Base Web.Pool Web.PoolSpec Web.PoolProofs Gen.Consts.
+
+Definition HCAP : N := HEAD_POOL_CAP.      (* actix-http/src/message.rs: pool.len() < 128 *)
+Definition RCAP : N := REQUEST_POOL_CAP.   (* actix-web/src/request.rs: with_capacity(128) *)
+
+(* The full statement of C11 on the model would be [C11_view_independent_of_history] WITHOUT the
+   premise [full_producer]; it is false (see [C11_refuted_partial_producer]): RequestHead::clear
+   resets only headers and flags, so a head producer that does not write method, uri, version and
+   peer_addr itself hands the previous request's values to the handler. *)
+
+(* After ANY history, what the router, the middleware and the handler can see of the next
+   request is exactly what they would see on a worker that has never served a request. *)
+Theorem C11_view_independent_of_history :
+  forall (requote : bytes -> option bytes) (root : container)
+         (history : list ev) (s : st) (q : reqd),
+  run HCAP RCAP requote root st_init history = Val s ->
+  full_producer (q_prod q) = true ->
+  view_of (snd (request HCAP requote root s q)) =
+  view_of (snd (request HCAP requote root st_init q)).
+Proof. intros. eapply view_independent_of_history; eassumption. Qed.
+
+(* ... and that view is this explicit function of the request and the configuration: every one of
+   the fifteen observable fields (method, uri, version, headers, peer, flags, path uri, requoted
+   path, skip, segments, resource path, matched flag, app_data stack, conn_data, extensions). *)
+Theorem C11_view_determined_by_request :
+  forall requote root history s q,
+  run HCAP RCAP requote root st_init history = Val s ->
+  full_producer (q_prod q) = true ->
+  view_of (snd (request HCAP requote root s q)) = spec_view requote root q.
+Proof. intros. eapply view_determined; eassumption. Qed.
+
+(* The same after any sequence of routing mutations and extension inserts applied to the request
+   (what the handler finally sees): those read and write observable fields only. *)
+Theorem C11_handler_view_independent :
+  forall requote root history s q (acts : list hact),
+  run HCAP RCAP requote root st_init history = Val s ->
+  full_producer (q_prod q) = true ->
+  view_of (fold_left apply_hact acts (snd (request HCAP requote root s q))) =
+  view_of (fold_left apply_hact acts (snd (request HCAP requote root st_init q))).
+Proof. intros. eapply handler_view_independent; eassumption. Qed.
+
+(* Supporting invariant: every request object waiting in the pool has only the root container on
+   its app_data stack, no extensions and no conn_data. *)
+Theorem C11_pooled_clean :
+  forall requote root history s o,
+  run HCAP RCAP requote root st_init history = Val s ->
+  In o (s_rpool s) ->
+  o_app_data o = [root] /\ o_exts o = [] /\ o_conn o = None.
+Proof. intros. eapply pooled_objects_clean; eassumption. Qed.
+
+(* Both pools stay within their capacities. *)
+Theorem C11_pool_bounds :
+  forall requote root history s,
+  run HCAP RCAP requote root st_init history = Val s ->
+  lenN (s_rpool s) <= RCAP /\ lenN (s_hpool s) <= HCAP.
+Proof. intros. eapply pool_bounds; eassumption. Qed.
+
+(* An object with an outstanding clone is never pushed: dropping a handle of a request that still
+   has another handle changes the count and nothing else. *)
+Theorem C11_clone_blocks_reuse :
+  forall requote root (s : st) (k : N) (en : lent),
+  find_live k (s_live s) = Some en -> 1 < l_rc en ->
+  exists s', step HCAP RCAP requote root s (EDrop k) = Val s' /\
+             s_rpool s' = s_rpool s /\ s_hpool s' = s_hpool s /\
+             find_live k (s_live s') = Some (mkLent k (l_obj en) (l_rc en - 1)).
+Proof. intros. eapply drop_with_outstanding_clone; eassumption. Qed.
+
+(* Dropping the last handle pushes the scrubbed object iff the pool is enabled and not full. *)
+Theorem C11_last_drop_pushes_iff_available :
+  forall requote root (s : st) (k : N) (en : lent),
+  find_live k (s_live s) = Some en -> l_rc en <= 1 ->
+  exists s', step HCAP RCAP requote root s (EDrop k) = Val s' /\
+             s_rpool s' = if s_enabled s && (lenN (s_rpool s) <? RCAP)
+                          then obj_scrub (l_obj en) :: s_rpool s else s_rpool s.
+Proof. intros. eapply drop_last_handle; eassumption. Qed.
+
+(* No request object is in the pool twice, or in the pool while a handle to it exists. *)
+Theorem C11_no_aliasing :
+  forall requote root history s,
+  run HCAP RCAP requote root st_init history = Val s ->
+  NoDup (map o_id (s_rpool s) ++ map (fun e => o_id (l_obj e)) (s_live s)).
+Proof. intros. eapply reachable_no_aliasing; eassumption. Qed.
+
+(* Known finding (class [known_partial_producer]): a request built with
+   actix_http::test::TestRequest::finish() (or Request::new()) after two ordinary requests
+   shows the FIRST request's peer address to the handler. *)
+Theorem C11_refuted_partial_producer :
+  exists (history : list ev) (s : st) (q : reqd),
+    run HCAP RCAP (fun _ => None) [] st_init history = Val s /\
+    known_partial_producer q /\
+    view_of (snd (request HCAP (fun _ => None) [] s q)) <>
+    view_of (snd (request HCAP (fun _ => None) [] st_init q)).
+Proof.
+  pose (q0 := mkReq PTest [71;69;84] [47;97] 11 [] (Some 131073) 0 [] None).
+  pose (q1 := mkReq PTest [71;69;84] [47;98] 11 [] None 0 [] None).
+  exists [ERequest q0; EDrop 0; ERequest q1; EDrop 1].
+  eexists. exists (mkReq PHttpTest [71;69;84] [47;99] 11 [] None 0 [] None).
+  split; [vm_compute; reflexivity|]. split; [reflexivity|].
+  intro H. apply (f_equal v_peer) in H. vm_compute in H. discriminate.
+Qed.
+
+Theorem C11_holds_outside_known :
+  forall requote root history s q,
+  ~ known_partial_producer q ->
+  run HCAP RCAP requote root st_init history = Val s ->
+  view_of (snd (request HCAP requote root s q)) =
+  view_of (snd (request HCAP requote root st_init q)).
+Proof.
+  intros requote root history s q Hk H. eapply view_independent_of_history; [exact H|].
+  unfold known_partial_producer in Hk. destruct (full_producer (q_prod q)); [reflexivity|].
+  exfalso; apply Hk; reflexivity.
+Qed.
+
+(* Non-vacuity: request 0 is routed into a scope (captures, skip, resource ids, scoped data),
+   gets extensions and conn_data, is cloned and dropped twice; request 1 then really receives the
+   recycled object (o_id = 0 although it is request number 1), and its view is the specified one. *)
+Example C11_example :
+  let root := [(0, 0)] in
+  let qa := mkReq PH1 [71;69;84] [47;115;49;47;55] 11 [([104], [49])] (Some 5) 2 [(1, 9)] (Some [(0, 3)]) in
+  let qb := mkReq PTest [80;85;84] [47] 10 [] None 0 [] None in
+  let history := [ERequest qa; EMut 0 (MAdd [105;100] 4 5); EMut 0 (MSkip 5); EMut 0 (MRid 10);
+                  EMut 0 (MMark true); EMut 0 (MData [(0, 1)]); EExt 0 7 7;
+                  EClone 0; EDrop 0; EDrop 0] in
+  exists s, run HCAP RCAP (fun _ => None) root st_init history = Val s /\
+            lenN (s_rpool s) = 1 /\ s_nreq s = 1 /\
+            o_id (snd (request HCAP (fun _ => None) root s qb)) = 0 /\
+            view_of (snd (request HCAP (fun _ => None) root s qb)) = spec_view (fun _ => None) root qb.
+Proof. eexists. split; [vm_compute; reflexivity|]. vm_compute. repeat split. Qed.
